@@ -23,7 +23,7 @@
      removed since (C10/ConfigSpec.v, 40 lines).  [obs] merges the three
      "nothing removed" result classes. *)
 From MptV Require Import Base.Mem C10.ConfigModel C10.ConfigSpec C10.PathProofs C10.PathAdd C10.PathBin C10.TreeQuery
-  C10.TreeOps C10.TreeAssign C10.StoreRefine C10.ItemProofs C10.RootRefine C10.TreeView C10.ViewRefine C10.ApiRefine.
+  C10.TreeOps C10.TreeAssign C10.StoreRefine C10.ItemProofs C10.RootRefine C10.TreeView C10.ViewRefine C10.ApiRefine C10.AssignNone C10.MetaSet.
 
 (* ---- paths ---- *)
 
@@ -366,6 +366,112 @@ Example C10_clear_example :
   pbase p = bs [97; 0] /\ pwalk p = Done [bs [97]].
 Proof. vm_compute. split; reflexivity. Qed.
 
+(* ---- assignment without value, values that are no text, and mpt_meta_set over every kind of value
+   (meta/meta_set.c, meta/meta_new.c, config/node_assign.c with val == NULL) ----
+
+   [WAssignNone b p] is configAssign(cfg, path, NULL) through the handle with base [b]: the element is
+   created without value when it does not exist, mpt_meta_set(&node->_meta, NULL) is applied when it
+   does; [WAssignBad b p] is configAssign with a value that holds no text (refused by mpt_meta_new).
+   Both are operations of [wop], so C10_api_refines_map / C10_api_step_refines above cover every
+   history that contains them: afterwards the key and its prefixes are present, the key's value is
+   gone - unless the result class says the element still holds a value ([RcOk]; the specification
+   takes that decision from the implementation, see [HAssignNone]): mpt_meta_set asks the old value
+   for an iterator to rewind before it replaces it, and the buffer metatype that holds text of 250
+   bytes and more is one.  The next two theorems say exactly when that happens. *)
+Theorem C10_unset_drops_short_text :
+  forall v, length v <= 249 -> meta_set (Some v) None = Some None.
+Proof. exact (fun v H => eq_trans (meta_set_none (Some v)) (f_equal Some (unset_val_short v H))). Qed.
+
+Theorem C10_unset_keeps_long_text :
+  forall v, 250 <= length v -> meta_set (Some v) None = Some (Some v).
+Proof. exact (fun v H => eq_trans (meta_set_none (Some v)) (f_equal Some (unset_val_long v H))). Qed.
+
+(* the reading of EVERY key after configAssign(cfg, path, NULL), any handle, any state: the old reading
+   with the destination and its prefixes made present and - result class RcCleared - the destination
+   without value, or - RcOk - with the value it had *)
+Theorem C10_assign_none_frame :
+  forall g b p, hpath b -> wff g -> pwf p -> Forall name_ok (elems p) ->
+  exists g' r, cfg_assign_none g b p = Done (g', r) /\ wff g' /\
+    ((elems b ++ elems p = [] /\ r = RcRefused /\ g' = g) \/
+     (elems b ++ elems p <> [] /\
+      exists ov, ((r = RcOk /\ ov = None) \/ (r = RcCleared /\ ov = Some None)) /\
+        forall k, k <> [] -> tlook g' k = upd_gen (tlook g) (elems b ++ elems p) ov k)).
+Proof. exact cfg_assign_none_spec. Qed.
+
+(* a value without text is refused and the store reads as before (a view has made its base element present) *)
+Theorem C10_assign_bad_changes_nothing :
+  forall g b p, hpath b -> wff g -> pwf p ->
+  exists g', cfg_assign_bad g b p = Done (g', RcRefused) /\ wff g' /\
+    ((elems b = [] /\ g' = g) \/
+     (elems b <> [] /\ forall k, k <> [] -> tlook g' k = upd_gen (tlook g) (elems b) None k)).
+Proof. exact cfg_assign_bad_spec. Qed.
+
+(* mpt_meta_set on one metatype reference holding ANY kind of value ([cell]: nothing, the default
+   metatype, text, a value that is an object / a configuration / an iterator - accepting or refusing -,
+   a view of the process-wide configuration), [meta_set_cell] = the order of meta_set.c:
+   - on nothing / default / text it is the function [meta_set] the tree theorems are about;
+   - an accepted text is what the value shows afterwards, byte for byte, at every length, whether the
+     old value took it in place or was replaced; a refused call leaves the value as it was;
+   - the old value is released only when another one has taken its place;
+   - every call refines [cell_spec]. *)
+Theorem C10_meta_set_is_tree_meta_set :
+  forall c a, plain c -> a <> ABad ->
+    let '(r, c', _) := meta_set_cell c a in
+    r = MOk /\ plain c' /\ meta_set (cell_val c) (aval_val a) = Some (cell_val c').
+Proof. exact meta_set_cell_plain. Qed.
+
+Theorem C10_meta_set_reads_back :
+  forall c v,
+    let '(r, c', _) := meta_set_cell c (AText v) in
+    (r = MOk -> cell_text c' = Some v) /\ (r = MErr -> c' = c).
+Proof. exact meta_set_cell_reads_back. Qed.
+
+Theorem C10_meta_set_refused_changes_nothing :
+  forall c a, let '(r, c', rel) := meta_set_cell c a in r = MErr -> c' = c /\ rel = false.
+Proof. exact meta_set_cell_refused. Qed.
+
+Theorem C10_meta_set_releases_replaced_only :
+  forall c a,
+    let '(r, c', rel) := meta_set_cell c a in
+    rel = true -> r = MOk /\ c <> CNull /\ (c' = CDefault \/ exists v, a = AText v /\ c' = CText v).
+Proof. exact meta_set_cell_released. Qed.
+
+Theorem C10_meta_set_refines_spec :
+  forall c a,
+    let '(r, c', _) := meta_set_cell c a in
+    cell_text c' = cell_spec (cell_text c) a (mres_ok r) (no_text c') /\ (a = ABad -> r = MErr).
+Proof. exact meta_set_cell_refines. Qed.
+
+(* non-vacuity: value of 3 bytes dropped, of 250 bytes kept by "no value"; created without value;
+   an integer refused through a view (base element present afterwards) *)
+Example C10_assign_none_example :
+  fst (wrun [] [WSet gl (Some (bs [97])) 46%N 0%N (Some (bs [1;2;3])); WAssignNone gl (mk [97]); WGet gl (Some (bs [97])) GVec;
+                WGet gl (Some (bs [97])) GExist;
+                WSet gl (Some (bs [97])) 46%N 0%N (Some (bs (repeat 118 250))); WAssignNone gl (mk [97]);
+                WGetp gl (mk [97]) GVec; WAssignNone gl (mk [98;46;99]); WGetp gl (mk [98]) GExist; WGetp gl (mk [98;46;99]) GVec;
+                WAssignBad (mk [120]) (mk [121]); WGetp gl (mk [120]) GExist; WGetp gl (mk [120;46;121]) GExist;
+                WAssignNone (mk [97]) gl; WAssignNone gl gl])
+  = [WOut (OutRc RcOk); WOut (OutRc RcCleared); WVal GMissing; WVal GFound;
+     WOut (OutRc RcOk); WOut (OutRc RcOk); WVal (GText (bs (repeat 118 250)));
+     WOut (OutRc RcCleared); WVal GFound; WVal GMissing;
+     WOut (OutRc RcRefused); WVal GFound; WVal GMissing;
+     WOut (OutRc RcOk); WOut (OutRc RcRefused)].
+Proof. vm_compute. reflexivity. Qed.
+
+(* an object takes 300 bytes in place and is not released; refusing, it refuses the whole call; asked to
+   reset itself and refusing, it is replaced by the default metatype and released; a configuration
+   that refuses is replaced by the text; an iterator is rewound and stays *)
+Example C10_meta_set_example :
+  meta_set_cell (CObj true None) (AText (bs (repeat 118 300))) = (MOk, CObj true (Some (bs (repeat 118 300))), false) /\
+  meta_set_cell (CObj false (Some (bs [1]))) (AText (bs [2])) = (MErr, CObj false (Some (bs [1])), false) /\
+  meta_set_cell (CObj false (Some (bs [1]))) ANone = (MOk, CDefault, true) /\
+  meta_set_cell (CCfg false None) (AText (bs [2])) = (MOk, CText (bs [2]), true) /\
+  meta_set_cell (CIter true (bs [7])) ANone = (MOk, CIter true (bs [7]), false) /\
+  meta_set_cell (CIter false (bs [7])) ANone = (MOk, CDefault, true) /\
+  meta_set_cell CView (AText (bs [2])) = (MOk, CText (bs [2]), true) /\
+  meta_set_cell (CText (bs [1])) ABad = (MErr, CText (bs [1]), false).
+Proof. vm_compute. repeat split; reflexivity. Qed.
+
 Print Assumptions C10_path_elements.
 Print Assumptions C10_path_elements_string.
 Print Assumptions C10_string_key.
@@ -392,3 +498,12 @@ Print Assumptions C10_listing_reads_store.
 Print Assumptions C10_root_api_refines_map.
 Print Assumptions C10_root_listing_reads_store.
 Print Assumptions C10_clear_keeps_elements.
+Print Assumptions C10_unset_drops_short_text.
+Print Assumptions C10_unset_keeps_long_text.
+Print Assumptions C10_assign_none_frame.
+Print Assumptions C10_assign_bad_changes_nothing.
+Print Assumptions C10_meta_set_is_tree_meta_set.
+Print Assumptions C10_meta_set_reads_back.
+Print Assumptions C10_meta_set_refused_changes_nothing.
+Print Assumptions C10_meta_set_releases_replaced_only.
+Print Assumptions C10_meta_set_refines_spec.
